@@ -3,6 +3,8 @@
    (from_val, tag, value, cl_*, *_TAG) are regenerated from src/style/compact_length.rs on every run. *)
 From Coq Require Import NArith Bool List.
 From TV Require Import Gen.CompactLengthGen Model.CompactLength Proofs.CompactLengthProofs.
+From TV Require Num.Num.
+From TV Require Import Model.Types Gen.MathGen.
 Import ListNotations.
 Open Scope N_scope.
 
@@ -66,6 +68,34 @@ Proof. intros v Hv. split; [exact (fit_content_length v Hv) | exact (fit_content
 Example C18_example_nan : value (build KPercent 0x7fc00001) = 0x7fc00001 /\ tag (build KFr 0x80000000) = FR_TAG.
 Proof. vm_compute. split; reflexivity. Qed.
 
+(* non-vacuity of the calc premises: an 8-aligned pointer with all 61 upper bits in use is accepted, comes back intact and
+   carries none of the eight value tags; a pointer that is only 4-aligned is rejected *)
+Example C18_example_calc :
+  (0 < 0xfffffffffffffff8 /\ 0xfffffffffffffff8 < 2 ^ 64 /\ 0xfffffffffffffff8 mod 8 = 0) /\
+  (exists w, cl_calc 0xfffffffffffffff8 = Some w /\ cl_is_calc w = true /\ cl_calc_value w = 0xfffffffffffffff8 /\
+             ~ In (tag w) noncalc_tags) /\
+  cl_calc 0x7ffc = None.
+Proof.
+  split; [vm_compute; repeat split; reflexivity|]. split; [|vm_compute; reflexivity].
+  eexists. split; [vm_compute; reflexivity|]. split; [vm_compute; reflexivity|]. split; [vm_compute; reflexivity|].
+  vm_compute. intuition discriminate.
+Qed.
+
+(* ---- last sentence of the property: resolution.  A length resolves to its number whatever the basis, a percentage to
+   basis * fraction (to nothing without a basis), auto to nothing.  Stated for every number structure about
+   Gen.MathGen.maybe_resolve_dim / maybe_resolve_lpa, regenerated on every run from the `MaybeResolve` impls of
+   src/util/resolve.rs, which dispatch on the packed value's tag.  What is NOT a theorem: that the regenerated match on the
+   abstract constructors Auto | Length v | Percent v is the Rust match on `self.0.tag()` / `self.0.value()` -- that step is the
+   translator's constructor-to-tag naming plus the C19 correspondence, which resolves real packed styles bit for bit. *)
+Theorem C18_resolution : forall (T : Type) (NT : Num.Num T) (v b : T) (basis : option T),
+  maybe_resolve_dim (Length v) basis = Some v /\
+  maybe_resolve_dim (Percent v) (Some b) = Some (Num.mul b v) /\ maybe_resolve_dim (Percent v) None = None /\
+  maybe_resolve_dim (@Auto T) basis = None /\
+  maybe_resolve_lpa (Length v) basis = Some v /\
+  maybe_resolve_lpa (Percent v) (Some b) = Some (Num.mul b v) /\ maybe_resolve_lpa (Percent v) None = None /\
+  maybe_resolve_lpa (@Auto T) basis = None.
+Proof. intros. repeat split; reflexivity. Qed.
+
 Print Assumptions C18_roundtrip.
 Print Assumptions C18_no_truncation.
 Print Assumptions C18_injective.
@@ -75,3 +105,4 @@ Print Assumptions C18_is_zero.
 Print Assumptions C18_calc_disjoint.
 Print Assumptions C18_calc_rejects.
 Print Assumptions C18_fit_content.
+Print Assumptions C18_resolution.
